@@ -34,9 +34,11 @@ enum F {
     Missing,
     B4,
     B4100,
+    /// A symbolic link to a regular file of 4096 bytes (the map must be that of the file behind the link).
+    Link4096,
 }
 
-const ALL_FILES: [F; 12] = [F::Empty, F::B8, F::B4088, F::B4096, F::B4104, F::B8192, F::B65536, F::MiBPlus8, F::B12, F::Missing, F::B4, F::B4100];
+const ALL_FILES: [F; 13] = [F::Empty, F::B8, F::B4088, F::B4096, F::B4104, F::B8192, F::B65536, F::MiBPlus8, F::B12, F::Missing, F::B4, F::B4100, F::Link4096];
 /// Depth-5 file set of the thorough tier: the empty file, one sub-page, one exact-page and three
 /// multi-page files (2, 16 and 257 pages) and the file whose size is not a multiple of 8.
 const REDUCED_FILES: [F; 7] = [F::Empty, F::B8, F::B4096, F::B4104, F::B65536, F::MiBPlus8, F::B12];
@@ -61,6 +63,7 @@ impl F {
             F::Missing => None,
             F::B4 => Some(4),
             F::B4100 => Some(4100),
+            F::Link4096 => Some(4096),
         }
     }
 
@@ -226,8 +229,14 @@ impl World {
         let prefix = format!("{}/c18-", dir.to_str().expect("scratch path is not UTF-8"));
         let mut w = World { page, prefix, paths: vec![], names: vec![], initial: vec![], content: vec![], writers: vec![], dirty: vec![], buf: String::new(), forgotten: 0 };
         for f in ALL_FILES {
-            let name = format!("{}{:?}.bin", w.prefix, f);
+            let mut name = format!("{}{:?}.bin", w.prefix, f);
             let path = PathBuf::from(&name);
+            if f == F::Link4096 {
+                // `name` is what /proc shows for mappings and descriptors: the file behind the link
+                name = format!("{}{:?}-target-of-the-link.bin", w.prefix, f);
+                let _ = std::fs::remove_file(&path);
+                std::os::unix::fs::symlink(&name, &path).expect("cannot create a symbolic link");
+            }
             let mut bytes: Vec<u8> = Vec::new();
             let mut words: Vec<u64> = Vec::new();
             match f.size() {
@@ -244,7 +253,7 @@ impl World {
                     if n % 8 != 0 {
                         words.clear();
                     }
-                    std::fs::write(&path, &bytes).expect("cannot create a test file");
+                    std::fs::write(if f == F::Link4096 { PathBuf::from(&name) } else { path.clone() }, &bytes).expect("cannot create a test file");
                 }
             }
             w.paths.push(path);
@@ -432,7 +441,7 @@ fn test_file_fds(w: &World) -> Vec<(i32, usize)> {
     if let Ok(dir) = std::fs::read_dir("/proc/self/fd") {
         for e in dir.flatten() {
             if let (Ok(fd), Ok(target)) = (e.file_name().to_string_lossy().parse::<i32>(), std::fs::read_link(e.path())) {
-                if let Some(fid) = w.paths.iter().position(|p| *p == target) {
+                if let Some(fid) = w.names.iter().position(|n| std::path::Path::new(n) == target) {
                     out.push((fd, fid));
                 }
             }
